@@ -21,6 +21,64 @@ class _Continue(Exception):
     pass
 
 
+#: when a set, every evaluated `if` statement records (id(node), arm taken): callers that base an "agrees on the samples"
+#: verdict on an evaluation use it to see which branches of the evaluated code their samples reached
+COVERAGE = None
+
+
+def unreached_branches(nodes) -> list:
+    """`if` statements under the given function nodes of which one arm was never taken during the recorded evaluations
+    (arms that only raise / pass are not counted: they are the rejected inputs)."""
+    out = []
+    cov = COVERAGE or set()
+    for fn in nodes:
+        for st in ast.walk(fn):
+            if not isinstance(st, ast.If):
+                continue
+
+            def trivial(arm):
+                return not arm or all(isinstance(x, (ast.Raise, ast.Pass)) or (isinstance(x, ast.Expr) and isinstance(x.value, ast.Constant)) for x in arm)
+
+            for arm, flag in ((st.body, True), (st.orelse, False)):
+                if (id(st), flag) not in cov and not trivial(arm):
+                    out.append((st, flag))
+            if (id(st), True) not in cov and (id(st), False) not in cov:
+                continue
+    return out
+
+
+class coverage_scope:
+    """`with coverage_scope() as cov: ...evaluations...; cov.missed([function nodes])` - branch coverage of the evaluated code"""
+
+    def __enter__(self):
+        global COVERAGE
+        self._saved = COVERAGE
+        COVERAGE = set()
+        self.cov = COVERAGE
+        return self
+
+    def __exit__(self, *exc):
+        global COVERAGE
+        COVERAGE = self._saved
+        return False
+
+    def missed(self, nodes) -> list:
+        global COVERAGE
+        keep = COVERAGE
+        COVERAGE = self.cov
+        try:
+            return unreached_branches(nodes)
+        finally:
+            COVERAGE = keep
+
+    def note(self, nodes) -> Optional[str]:
+        m = self.missed(nodes)
+        if not m:
+            return None
+        st_, flag_ = m[0]
+        return f"the samples never take the {'true' if flag_ else 'false'} arm of `if {ast.unparse(st_.test)[:60]}` (line {st_.lineno}): agreement on them does not cover that path"
+
+
 class _Sl(list):
     """positions that came from a slice (as opposed to an index list): slices combine as an outer product"""
 
@@ -470,7 +528,10 @@ def run_fragment(body: Sequence[ast.stmt], names: Dict[str, Any], attrs: Optiona
             elif isinstance(st, ast.Continue):
                 raise _Continue()
             elif isinstance(st, ast.If):
-                run(st.body if truth(fold(st.test)) else st.orelse)
+                taken_ = truth(fold(st.test))
+                if COVERAGE is not None:
+                    COVERAGE.add((id(st), bool(taken_)))
+                run(st.body if taken_ else st.orelse)
             elif isinstance(st, ast.Raise):
                 raise FragRaise()
             elif isinstance(st, ast.Return):
